@@ -33,7 +33,7 @@ for cand in sorted(glob.glob('/root/.vp/runs/*/log')):
         m = re.match(r"(\w+) tier=thorough seed=\d+ exit=(\d+) (\d+)s", line)
         if m and m.group(2) == "0":
             thor[m.group(1)] = m.group(3) + " s"
-for d, ids in (("/verif/evidence", [f"C{i:02d}" for i in range(1, 21)]), ("/verif/evidence_extended", ["X01", "X02"])):
+for d, ids in (("/verif/evidence", [f"C{i:02d}" for i in range(1, 21)]), ("/verif/evidence_extended", ["X01", "X02", "X03"])):
     for pid in ids:
         f = f"{d}/{pid}.json"
         if not os.path.exists(f):
